@@ -138,13 +138,13 @@ def Own (A : Aff) (st : St) : Prop :=
   ∀ (x : WinTree.Id) (w : Win), A x = false → st.tree.wins[x]? = some w → w.freed = false → 1 ≤ st.owned.getD x 0
 
 /-- An action of a handler that touches windows of `A` only: restack requests and extra references touch nothing
-    the routing looks at before the next flush; close, unref, hide, show and steal-input act on a window of `A`.
+    the routing looks at before the next flush; close, unref, hide, show, steal-input and set_geometry act on a window of `A`.
     (`take_focus` moves focus pointers along the whole parent chain: covered separately, `ActConfF` in
     Proof/WinInputDeliver.lean, when `A` is a union of top-level subtrees.) -/
 def ActConf (A : Aff) (a : Action) : Prop :=
   match a.act with
   | .raise | .raiseFront | .lower | .lowerBack | .keep => True
-  | .close | .unref | .hide | .unhide | .stealOn | .stealOff => A a.win = true
+  | .close | .unref | .hide | .unhide | .stealOn | .stealOff | .geom .. => A a.win = true
   | .focus => False
 
 end WinInput
